@@ -52,9 +52,22 @@ GoodValid(b) ==
       [] b.role = "dcc"   -> Required(c) /\ c.svc = 17 /\ c.inv = b.inv
       [] b.role = "whois" -> c.link \in {"ucast", "bcast"} /\ c.net \in {"local", "global"} /\ c.app = "ureq" /\ c.svc = WhoIsService
       [] b.role = "g"     -> TRUE
+      [] b.role = "last"  -> c.link = "ucast" /\ c.net = "local" /\ c.app = "cseg" /\ c.inv = b.inv /\ ~c.routed
       [] OTHER            -> FALSE
+\* role "last": the harness claims that this datagram is the final segment of a request all of whose segments came before
+\* it in the batch, in order, from the same station and with no other use of that invoke ID -- TLC reads the segments itself
+SegOf(d) == LET a == A!Dec(Apdu(d)) IN
+            IF a = A!Err THEN [seq |-> NONE, mor |-> FALSE]
+            ELSE IF a.type = "ConfirmedRequest" /\ a.seg THEN [seq |-> a.seq, mor |-> a.mor] ELSE [seq |-> NONE, mor |-> FALSE]
+LastOK(t, k) ==
+    LET b    == t.batch[k]
+        same == SelectSeq([j \in 1..Len(t.batch) |-> j],
+                          LAMBDA j : t.batch[j].src = b.src /\ LET c == Class(t.batch[j].d) IN Permitted(c) /\ c.inv \in {b.inv, NONE})
+    IN /\ Len(same) >= 2 /\ same[Len(same)] = k
+       /\ \A m \in 1..Len(same) : LET sg == SegOf(t.batch[same[m]].d) IN sg.seq = m - 1 /\ sg.mor = (m < Len(same))
 WellFormedCase(t) ==
     /\ \A k \in 1..Len(t.batch) : GoodValid(t.batch[k])
+    /\ \A k \in 1..Len(t.batch) : t.batch[k].role = "last" => LastOK(t, k)
     /\ \A k \in 1..Len(t.fu) : t.fu[k].role \in {"rp", "dcc"} /\ GoodValid(t.fu[k])
     /\ Len(t.fu) >= 1 /\ t.fu[Len(t.fu)].role = "rp"
     /\ t.elapsed >= Quiet(t.cfg)
